@@ -155,7 +155,17 @@ def real_call(cfg, state, obs_list, user):
     finally:
         del state.sample
     out["calls"] = rec.calls
-    out["vals"] = [[scaled_values(o, state, s) for o in obs_list] for s in rec.snaps]
+    # a chain state handed back by sample() must be a 0/1 array (C05); when it is not (e.g. an
+    # observable wrote into the live chain tensor and the next draw continued from it) the run has no
+    # counterpart in the specification: reported as a violation, not as a machinery failure
+    if any(bool(((s_ != 0) & (s_ != 1)).any()) for s_ in rec.snaps):
+        class ChainStateNotBinary(Exception):
+            pass
+        if out["error"] is None:
+            out["error"] = ChainStateNotBinary("sample() returned a chain state that is not a 0/1 array")
+        out["vals"] = []
+    else:
+        out["vals"] = [[scaled_values(o, state, s) for o in obs_list] for s in rec.snaps]
     out["ucont"] = 0 if user is None else rec.cid(user)
     out["user_same"] = None if user is None else (_bits(user) == user0)
     out["user_is_last"] = None if (user is None or not rec.snaps) else (_bits(user) == _bits(rec.snaps[-1]))
